@@ -1,6 +1,9 @@
-(* ConnProofsC7.v — C16: for a well-behaved peer and a window that does not shrink
-   between the connections of a session, every resume fits the window, hence the
-   inflight bound holds (c16_peer_ok => c16_resume_fits => c16_bound). *)
+(* ConnProofsC7.v — C16, main theorem: if the window does not shrink between the
+   connections of a session (c16_window_const), the inflight bound c16_bound holds of
+   every accepted trace.  Ingredients: the hypothesis scanner tracks the ids of the
+   outgoing store (RKA); unless the peer sent a spurious acknowledgement, the ids in
+   flight are ids of stored packets (RF) and stored packets + free slots + the slot
+   held by the dequeuer fit the window (RT), so every resume fits the window. *)
 From Coq Require Import List NArith Bool Lia ZArith ZifyN ZifyNat ZifyBool.
 From GM Require Import Base.Lts Codec.Packet Session.Ids Session.Store Session.StoreProofs
   Broker.Conn Broker.ConnSpec Broker.ConnBase Broker.ConnProofsCDefs Broker.ConnProofsC0 Broker.ConnProofsC1
@@ -157,7 +160,6 @@ Proof.
   pose proof HS as [H1 H2 H3].
   inv_step H; inv_helpers; injection H as <-; subst; cbn [dp_shape] in Hsh.
   all: try ((eapply INVS_frame; [| |exact HS]); bcsimpl; cbn [sess_with s_out]; reflexivity).
-  - destruct backack; (eapply INVS_frame; [| |exact HS]); reflexivity.
   - (* Save ok *)
     destruct Hsh as (m & id & -> & _).
     assert (E : forall x, s_out (sess (set_dp (sess_save s Outgoing (Publish false m id)) x)) =
@@ -198,3 +200,800 @@ Lemma INV3_init : INV3 bc_init.
 Proof. split; [exact INV_init|exact INVS_init]. Qed.
 Lemma INV3_step s e s' : INV3 s -> step s e = Some s' -> INV3 s'.
 Proof. intros [H1 H2] H. split; [eapply INV_step|eapply INVS_step]; eassumption. Qed.
+
+(* ------------------------------- the hypothesis scanner tracks the store's ids *)
+
+Definition okeys (s : bc) : list N := keys (s_out (sess s)).
+
+Definition RKA (s : bc) (v : pk_st) : Prop :=
+  pk_ids v = okeys s /\ (cw s <> 0 -> pk_last v = cw s).
+
+Lemma keys_save_pk st p i ids :
+  ids = keys st -> get_id p = Some i ->
+  (if nmem i ids then ids else ids ++ [i]) = keys (store_save st p).
+Proof.
+  intros -> G. unfold store_save. rewrite G, keys_put, nmem_keys. destruct (store_lookup st i); reflexivity.
+Qed.
+
+Lemma RKA_frame s s' v : okeys s' = okeys s -> cw s' = cw s -> RKA s v -> RKA s' v.
+Proof. intros Ek Ec [H1 H2]. split; rewrite ?Ek, ?Ec; assumption. Qed.
+
+Lemma RKA_proc s v e s' v' : INVS s -> RKA s v -> step_proc s e = Some s' -> pk_step v e = Some v' -> RKA s' v'.
+Proof.
+  intros HS [Hk Hw] H Hv. pose proof HS as [S1 S2 S3]. unfold step_proc, proc_dispatch, die_p, guard in H.
+  inv_step H; inv_helpers; injection H as <-; subst; cbn [pk_step] in Hv.
+  all: try (injection Hv as <-; split; unfold okeys in *; bcsimpl; cbn [sess_with s_out]; assumption).
+  - (* Setup *)
+    destruct (fresh || (pk_last v <=? w)); [|discriminate Hv]. injection Hv as <-.
+    destruct fresh; split; unfold okeys; bcsimpl; cbn [pk_ids pk_last session_new s_out keys map]; try reflexivity; exact Hk.
+  - (* Resend ok *)
+    injection Hv as <-. inversion S3 as [|? ? Hp Hl]; subst. destruct Hp as (i & Gi & Hin).
+    assert (Es : okeys (sess_save (take_deq_if_any s) Outgoing (set_dup p)) = okeys s).
+    { unfold okeys, take_deq_if_any, take_deq. destruct (0 <? tdeq s); bcsimpl; cbn [sess_with s_out sess_store];
+        unfold store_save; rewrite get_id_set_dup, Gi; apply put_present; exact Hin. }
+    split; [unfold okeys in *; bcsimpl; rewrite Hk; symmetry; exact Es|].
+    unfold take_deq_if_any, take_deq. destruct (0 <? tdeq s); bcsimpl; exact Hw.
+  - (* Resend fail *)
+    injection Hv as <-. inversion S3 as [|? ? Hp Hl]; subst. destruct Hp as (i & Gi & Hin).
+    assert (Es : okeys (sess_save (take_deq_if_any s) Outgoing (set_dup p)) = okeys s).
+    { unfold okeys, take_deq_if_any, take_deq. destruct (0 <? tdeq s); bcsimpl; cbn [sess_with s_out sess_store];
+        unfold store_save; rewrite get_id_set_dup, Gi; apply put_present; exact Hin. }
+    split; [unfold okeys in *; bcsimpl; rewrite Hk; symmetry; exact Es|].
+    unfold take_deq_if_any, take_deq. destruct (0 <? tdeq s); bcsimpl; exact Hw.
+  - (* AckDel ok *)
+    match goal with Hq : (_ =? _) = true |- _ => apply N.eqb_eq in Hq; subst end.
+    injection Hv as <-. split; unfold okeys in *; bcsimpl; cbn [sess_with s_out sess_store pk_ids pk_last]; [|exact Hw].
+    rewrite Hk. symmetry. apply keys_delete. exact S1.
+  - (* RecSave ok *)
+    match goal with Hq : (_ =? _) = true |- _ => apply N.eqb_eq in Hq; subst end.
+    cbn [get_id] in Hv. injection Hv as <-. split; unfold okeys in *; bcsimpl; cbn [sess_with s_out sess_store pk_ids pk_last]; [|exact Hw].
+    apply keys_save_pk; [exact Hk|reflexivity].
+Qed.
+
+Lemma RKA_deq s v e s' v' : INV s -> RKA s v -> step_deq s e = Some s' -> pk_step v e = Some v' -> RKA s' v'.
+Proof.
+  intros HI [Hk Hw] H Hv. pose proof (I_shape _ HI) as Hsh. unfold step_deq, guard in H.
+  inv_step H; inv_helpers; injection H as <-; subst; cbn [pk_step] in Hv; cbn [dp_shape] in Hsh.
+  all: try (injection Hv as <-; split; unfold okeys in *; bcsimpl; cbn [sess_with s_out]; assumption).
+  - (* NextId *) destruct (nmem id (pk_ids v)); [discriminate Hv|]. injection Hv as <-.
+    split; unfold okeys in *; bcsimpl; assumption.
+  - (* Save ok *) destruct Hsh as (m & id & -> & _).
+    match goal with Hq : packet_eqb _ _ = true |- _ => apply packet_eqb_publish_l in Hq; subst end.
+    cbn [get_id] in Hv. injection Hv as <-.
+    split; unfold okeys in *; [|destruct ba; bcsimpl; exact Hw].
+    assert (E : forall x, keys (s_out (sess (set_dp (sess_save s Outgoing (Publish false m id)) x))) =
+                          keys (store_save (s_out (sess s)) (Publish false m id))) by (intros x; reflexivity).
+    rewrite E. cbn [pk_ids]. apply keys_save_pk; [exact Hk|reflexivity].
+  - (* Send ok *) destruct Hsh as (m & id & ->).
+    match goal with Hq : packet_eqb _ _ = true |- _ => apply packet_eqb_publish_l in Hq; subst end.
+    cbn [pk_step] in Hv. injection Hv as <-.
+    destruct (m_qos m =? 0); split; unfold okeys in *; bcsimpl; assumption.
+Qed.
+
+Lemma pk_step_other v e :
+  match e with ESetup _ _ | ESave _ _ _ _ | EDelete _ _ _ _ | ENextId _ _ => False | _ => True end -> pk_step v e = Some v.
+Proof. destruct e; try contradiction; reflexivity. Qed.
+
+Lemma RKA_step s v e s' v' : INV3 s -> RKA s v -> step s e = Some s' -> pk_step v e = Some v' -> RKA s' v'.
+Proof.
+  intros [HI HS] HR H Hv. apply step_inv in H.
+  destruct H as [He Ho ->|He Ho ->|He Hq ->|Hc|g s1 Hg Hl Hr Ho Hp|g s1 Hg Hl Hr Ho Hnp Hd
+                |g s1 Hg Hl Hr Ho Hnp Hnd Ha|g s1 Hg Hl Hr Ho Hc|He Hc|g He Ho ->].
+  - subst e. injection Hv as <-. destruct HR as [Hk _]. split; [exact Hk|]. bcsimpl. intros C; contradiction.
+  - subst e. injection Hv as <-. exact HR.
+  - subst e. injection Hv as <-. exact HR.
+  - apply step_clo_sum in Hc as (He & Hs & _).
+    assert (Ev : v' = v).
+    { destruct e; try contradiction; cbn [pk_step] in Hv; try (injection Hv as <-; reflexivity).
+      destruct d; [injection Hv as <-; reflexivity|contradiction]. }
+    subst v'. eapply RKA_frame; [unfold okeys; rewrite (sp_out _ _ Hs); reflexivity|apply (sp_cw _ _ Hs)|exact HR].
+  - assert (HR1 : RKA s1 v) by (destruct Hl as [->|(g0 & _ & [[_ ->]|[[_ ->]|[[_ ->]|[_ ->]]]])]; exact HR).
+    eapply RKA_proc; [eapply INVS_learned; eassumption|exact HR1|exact Hp|exact Hv].
+  - assert (HR1 : RKA s1 v) by (destruct Hl as [->|(g0 & _ & [[_ ->]|[[_ ->]|[[_ ->]|[_ ->]]]])]; exact HR).
+    eapply RKA_deq; [eapply INV_learned; eassumption|exact HR1|exact Hd|exact Hv].
+  - assert (HR1 : RKA s1 v) by (destruct Hl as [->|(g0 & _ & [[_ ->]|[[_ ->]|[[_ ->]|[_ ->]]]])]; exact HR).
+    pose proof (step_ack_sum _ _ _ Ha) as (Hs & _ & He).
+    rewrite pk_step_other in Hv by (destruct e; try contradiction; exact I). injection Hv as <-.
+    eapply RKA_frame; [unfold okeys; rewrite (sp_out _ _ Hs); reflexivity|apply (sp_cw _ _ Hs)|exact HR1].
+  - assert (HR1 : RKA s1 v) by (destruct Hl as [->|(g0 & _ & [[_ ->]|[[_ ->]|[[_ ->]|[_ ->]]]])]; exact HR).
+    apply step_cleanup_sum in Hc as (He & Hc).
+    rewrite pk_step_other in Hv by (destruct e; try contradiction; exact I). injection Hv as <-.
+    destruct Hc as [(Hs & _)|Hf].
+    + eapply RKA_frame; [unfold okeys; rewrite (sp_out _ _ Hs); reflexivity|apply (sp_cw _ _ Hs)|exact HR1].
+    + eapply RKA_frame; [unfold okeys; rewrite (fz_sess _ _ Hf); reflexivity|apply (fz_cw _ _ Hf)|exact HR1].
+  - subst e. injection Hv as <-. apply step_cleanup_sum in Hc as (_ & [(Hs & _)|Hf]).
+    + eapply RKA_frame; [unfold okeys; rewrite (sp_out _ _ Hs); reflexivity|apply (sp_cw _ _ Hs)|exact HR].
+    + eapply RKA_frame; [unfold okeys; rewrite (fz_sess _ _ Hf); reflexivity|apply (fz_cw _ _ Hf)|exact HR].
+  - subst e. injection Hv as <-. (eapply RKA_frame; [| |exact HR]); reflexivity.
+Qed.
+
+(* --------------------------------------- in flight ids are ids of stored packets *)
+
+Lemma In_nremove1 k x l : In x (nremove1 k l) -> In x l.
+Proof.
+  induction l as [|y l IH]; cbn [nremove1]; [intros []|]. destruct (y =? k); [intros H; right; exact H|].
+  cbn [In]. intros [E|H]; [left; exact E|right; apply IH; exact H].
+Qed.
+
+Lemma NoDup_nremove1 k l : NoDup l -> NoDup (nremove1 k l).
+Proof.
+  induction l as [|y l IH]; cbn [nremove1]; intros H; [constructor|]. inversion H as [|? ? Hn Hl]; subst.
+  destruct (y =? k); [exact Hl|]. constructor; [intros C; apply Hn; eapply In_nremove1; exact C|apply IH; exact Hl].
+Qed.
+
+Lemma nremove1_notin k l : NoDup l -> ~ In k (nremove1 k l).
+Proof.
+  induction l as [|y l IH]; cbn [nremove1]; intros H; [intros []|]. inversion H as [|? ? Hn Hl]; subst.
+  destruct (N.eqb_spec y k) as [->|Hne]; [exact Hn|]. cbn [In]. intros [E|C]; [congruence|exact (IH Hl C)].
+Qed.
+
+Lemma In_fl_add x id fl : In x (fl_add id fl) <-> x = id \/ In x fl.
+Proof.
+  unfold fl_add. destruct (nmem id fl) eqn:En.
+  - apply nmem_true_iff in En. split; [intros H; right; exact H|intros [->|H]; assumption].
+  - cbn [In]. split; [intros [E|H]; [left; symmetry; exact E|right; exact H]|intros [->|H]; [left; reflexivity|right; exact H]].
+Qed.
+
+Lemma NoDup_fl_add id fl : NoDup fl -> NoDup (fl_add id fl).
+Proof.
+  unfold fl_add. destruct (nmem id fl) eqn:En; intros H; [exact H|]. constructor; [|exact H].
+  intros C. apply nmem_true_iff in C. congruence.
+Qed.
+
+Lemma fl_add_in id fl : In id fl -> fl_add id fl = fl.
+Proof. intros H. unfold fl_add. apply nmem_true_iff in H. rewrite H. reflexivity. Qed.
+
+Lemma counted_get_id p id : counted_id p = Some id -> get_id p = Some id.
+Proof. destruct p; cbn [counted_id get_id]; try discriminate; [destruct (m_qos m =? 0); [discriminate|]|]; intros H; exact H. Qed.
+
+(* the id of the QoS>0 PUBLISH the dequeuer has in hand; has it been saved? *)
+Definition pend (d : dpc) : option N :=
+  match d with DSave p _ | DBackAck p | DSend p => counted_id p | _ => None end.
+Definition saved (d : dpc) : bool := match d with DBackAck _ | DSend _ => true | _ => false end.
+
+Record RFr (s : bc) (t : wb_st) : Prop := MkRFr {
+  F_nodup : NoDup (wb_fl t);
+  F_sub : forall id, In id (wb_fl t) -> In id (okeys s);
+  F_pend : forall id, pend (dp s) = Some id -> ~ In id (wb_fl t) /\ (saved (dp s) = true -> In id (okeys s));
+  F_phase : match pp s with
+            | PAckDel id => In id (okeys s) /\ ~ In id (wb_fl t) /\ pend (dp s) <> Some id
+            | PRecSave id | PRelTx id => In id (okeys s) /\ In id (wb_fl t)
+            | _ => True
+            end }.
+Definition RF (s : bc) (t : wb_st) : Prop := wb_spur t = true \/ RFr s t.
+
+Lemma wb_spur_mono t e t' : wb_step t e = Some t' -> wb_spur t = true -> is_setup_ok e = false -> wb_spur t' = true.
+Proof. intros H Hs He. destruct (wb_step_spur t e Hs He) as (t'' & E & Hs'). congruence. Qed.
+
+(* a frame for RFr: same scanner state, same store ids, the dequeuer's pending id and the
+   processor's obligation unchanged or gone *)
+Lemma RFr_frame s s' t :
+  okeys s' = okeys s ->
+  (pend (dp s') = pend (dp s) /\ saved (dp s') = saved (dp s) \/ pend (dp s') = None) ->
+  (pp s' = pp s \/ match pp s' with PAckDel _ | PRecSave _ | PRelTx _ => False | _ => True end) ->
+  RFr s t -> RFr s' t.
+Proof.
+  intros Ek Ed Ep [H1 H2 H3 H4]. constructor; rewrite ?Ek; try assumption.
+  - intros id Hp. destruct Ed as [[E1 E2]|E]; [rewrite E1 in Hp; rewrite E2; apply H3; exact Hp|rewrite E in Hp; discriminate Hp].
+  - destruct Ep as [Ep|Ep].
+    + rewrite Ep. destruct (pp s); try exact I; try exact H4.
+      destruct H4 as (A & B & C). repeat split; try assumption.
+      destruct Ed as [[E1 _]|E]; [rewrite E1; exact C|rewrite E; discriminate].
+    + destruct (pp s'); try exact I; contradiction.
+Qed.
+
+Definition setup_state (s : bc) (c : connect) (resumed fresh : bool) (w p b : N) : bc :=
+  let s1 := if fresh then set_sess s session_new else s in
+  BC (conn_no s1) (sess s1) (clos s1) (gproc s1) (gdeq s1) (gack s1) (gcl s1) (ph s1)
+     (PConnack c resumed) (dp s1) (ap s1) (lp s1) (dying s1) (c_will c) w p b w p b [].
+
+Lemma RF_setup s t c resumed fresh w p b :
+  INV s -> RW s t -> pp s = PSetup c ->
+  RFr (setup_state s c resumed fresh w p b) (WbSt w (wb_fl t) (if fresh then false else wb_spur t)).
+Proof.
+  intros HI [_ Hfl] Hp.
+  assert (Hn : wb_fl t = []) by (apply Hfl; rewrite Hp; reflexivity).
+  assert (Hd : dp s = DOff) by (apply (I_pre _ HI); rewrite Hp; reflexivity).
+  unfold setup_state. destruct fresh; constructor; bcsimpl; cbn [wb_fl]; rewrite ?Hn, ?Hd; cbn [pend].
+  all: first [apply NoDup_nil|exact I|intros ? C; discriminate C|intros ? []].
+Qed.
+
+Definition plain_pp (p : ppc) : Prop := match p with PAckDel _ | PRecSave _ | PRelTx _ => False | _ => True end.
+
+(* an acknowledgement arrives: in flight -> the processor's obligation is justified; else spurious *)
+Lemma RF_ack s t g p id t' X :
+  RFr s t -> p = Puback id \/ p = Pubcomp id -> wb_step t (ERx g p) = Some t' ->
+  X = PAckDel id \/ plain_pp X -> RF (set_pp s X) t'.
+Proof.
+  intros [F1 F2 F3 F4] Hp Hw HX.
+  destruct (wb_rx_ack t g p id Hp) as [(En & E & _)|E]; rewrite E in Hw; injection Hw as <-; [right|left; reflexivity].
+  apply nmem_true_iff in En.
+  constructor; unfold okeys in *; bcsimpl; cbn [wb_fl].
+  - apply NoDup_nremove1. exact F1.
+  - intros x Hx. apply F2. eapply In_nremove1. exact Hx.
+  - intros x Hx. destruct (F3 x Hx) as [A B]. split; [intros C; apply A; eapply In_nremove1; exact C|exact B].
+  - destruct HX as [->|HX]; [|destruct X; try exact I; contradiction].
+    split; [apply F2; exact En|]. split; [apply nremove1_notin; exact F1|].
+    intros C. destruct (F3 id C) as [A _]. contradiction.
+Qed.
+
+Lemma RF_rec s t g id t' X :
+  RFr s t -> wb_step t (ERx g (Pubrec id)) = Some t' ->
+  X = PRecSave id \/ plain_pp X -> RF (set_pp s X) t'.
+Proof.
+  intros [F1 F2 F3 F4] Hw HX. cbn [wb_step] in Hw.
+  destruct (nmem id (wb_fl t)) eqn:En; injection Hw as <-; [right|left; reflexivity].
+  apply nmem_true_iff in En.
+  constructor; unfold okeys in *; bcsimpl; try assumption.
+  destruct HX as [->|HX]; [|destruct X; try exact I; contradiction].
+  split; [apply F2; exact En|exact En].
+Qed.
+
+(* a counted packet is sent successfully: its id joins the ids in flight *)
+Lemma wb_tx_counted t g p a id t' :
+  counted_id p = Some id -> wb_step t (ETx g p a true) = Some t' ->
+  t' = WbSt (wb_w t) (fl_add id (wb_fl t)) (wb_spur t).
+Proof.
+  intros Hc Hw. rewrite wb_tx_ok, Hc in Hw.
+  destruct (wb_spur t || (N.of_nat (length (fl_add id (wb_fl t))) <=? wb_w t)); [injection Hw as <-; reflexivity|discriminate].
+Qed.
+
+Lemma wb_tx_uncounted t g p a t' : counted_id p = None -> wb_step t (ETx g p a true) = Some t' -> t' = t.
+Proof. intros Hc Hw. rewrite wb_tx_ok, Hc in Hw. injection Hw as <-. reflexivity. Qed.
+
+Lemma RF_proc s t v e s' t' v' :
+  INV s -> INVS s -> RKA s v -> RW s t -> RF s t ->
+  step_proc s e = Some s' -> wb_step t e = Some t' -> pk_step v e = Some v' -> RF s' t'.
+Proof.
+  intros HI HS [Hk _] HW HR H Hw Hv.
+  destruct (is_setup_ok e) eqn:Ese.
+  { destruct e; try discriminate Ese. destruct r as [|resumed fresh w p b]; [discriminate Ese|].
+    unfold step_proc in H. destruct (pp s) as [| | | | | |ps| | | | | | | | | | | | | | | | | | | | | |] eqn:Ep;
+      try discriminate H; [|destruct ps; discriminate H]. cbv beta iota zeta in H. unfold guard in H.
+    destruct ((0 <? w) && (0 <? p) && (0 <? b)); [|discriminate H]. injection H as <-.
+    cbn [wb_step] in Hw. injection Hw as <-. right. exact (RF_setup s t c resumed fresh w p b HI HW Ep). }
+  destruct HR as [Hsp|HF]; [left; eapply wb_spur_mono; eassumption|].
+  pose proof (I_pre _ HI) as Hpre. pose proof HS as [S1 S2 S3]. pose proof HF as [F1 F2 F3 F4].
+  unfold step_proc, proc_dispatch, die_p, guard in H.
+  inv_step H; inv_helpers; injection H as <-; subst; cbn [pre_loop] in Hpre; try discriminate Ese.
+  all: try (cbn [wb_step] in Hw; injection Hw as <-; right;
+            (eapply RFr_frame; [| | |exact HF]); unfold okeys; bcsimpl; cbn [sess_with s_out];
+            [reflexivity|left; split; reflexivity|first [left; reflexivity|right; exact I]]).
+  - eapply RF_ack; [exact HF|left; reflexivity|exact Hw|right; exact I].
+  - eapply RF_rec; [exact HF|exact Hw|right; exact I].
+  - eapply RF_ack; [exact HF|right; reflexivity|exact Hw|right; exact I].
+  - (* All *) cbn [wb_step] in Hw; injection Hw as <-; right.
+    (eapply RFr_frame; [| | |exact HF]); unfold okeys; bcsimpl; [reflexivity|left; split; reflexivity|right; destruct l; exact I].
+  - (* Resend ok *)
+    inversion S3 as [|? ? Hp Hl]; subst. destruct Hp as (i & Gi & Hin).
+    destruct (Hpre eq_refl) as [Hd _].
+    assert (Es : okeys (sess_save (take_deq_if_any s) Outgoing (set_dup p)) = okeys s).
+    { unfold okeys, take_deq_if_any, take_deq. destruct (0 <? tdeq s); bcsimpl; cbn [sess_with s_out sess_store];
+        unfold store_save; rewrite get_id_set_dup, Gi; apply put_present; exact Hin. }
+    assert (Ed : forall X, dp (set_pp (sess_save (take_deq_if_any s) Outgoing (set_dup p)) X) = DOff).
+    { intros X. unfold take_deq_if_any, take_deq. destruct (0 <? tdeq s); bcsimpl; exact Hd. }
+    match goal with Hq : packet_eqb _ _ = true |- _ => pose proof (counted_set_dup _ _ Hq) as Hip end.
+    right. destruct (counted_id p0) as [id|] eqn:Ec.
+    + rewrite (wb_tx_counted _ _ _ _ _ _ Ec Hw).
+      symmetry in Hip. apply counted_get_id in Hip. rewrite Gi in Hip. injection Hip as <-.
+      constructor; cbn [wb_fl]; rewrite ?Ed; unfold okeys in *; bcsimpl; cbn [pend].
+      * apply NoDup_fl_add. exact F1.
+      * intros x Hx. fold (okeys (sess_save (take_deq_if_any s) Outgoing (set_dup p))). rewrite Es.
+        apply In_fl_add in Hx as [->|Hx]; [exact Hin|apply F2; exact Hx].
+      * intros x C. discriminate C.
+      * destruct l; exact I.
+    + rewrite (wb_tx_uncounted _ _ _ _ _ Ec Hw).
+      constructor; rewrite ?Ed; unfold okeys in *; bcsimpl; cbn [pend]; try assumption.
+      * intros x Hx. fold (okeys (sess_save (take_deq_if_any s) Outgoing (set_dup p))). rewrite Es. apply F2. exact Hx.
+      * intros x C. discriminate C.
+      * destruct l; exact I.
+  - (* Resend fail *)
+    inversion S3 as [|? ? Hp Hl]; subst. destruct Hp as (i & Gi & Hin).
+    destruct (Hpre eq_refl) as [Hd _].
+    assert (Es : okeys (sess_save (take_deq_if_any s) Outgoing (set_dup p)) = okeys s).
+    { unfold okeys, take_deq_if_any, take_deq. destruct (0 <? tdeq s); bcsimpl; cbn [sess_with s_out sess_store];
+        unfold store_save; rewrite get_id_set_dup, Gi; apply put_present; exact Hin. }
+    rewrite wb_tx_fail in Hw. injection Hw as <-. right.
+    (eapply RFr_frame; [exact Es| | |exact HF]); [right|right; exact I].
+    unfold take_deq_if_any, take_deq. destruct (0 <? tdeq s); bcsimpl; rewrite Hd; reflexivity.
+  - (* Restore *) cbn [wb_step] in Hw; injection Hw as <-; right.
+    (eapply RFr_frame; [| | |exact HF]); unfold okeys; bcsimpl; [reflexivity|right; reflexivity|right; exact I].
+  - eapply RF_ack; [exact HF|left; reflexivity|exact Hw|left; reflexivity].
+  - eapply RF_rec; [exact HF|exact Hw|left; reflexivity].
+  - eapply RF_ack; [exact HF|right; reflexivity|exact Hw|left; reflexivity].
+  - (* AckDel ok *)
+    match goal with Hq : (_ =? _) = true |- _ => apply N.eqb_eq in Hq; subst end.
+    cbn [wb_step] in Hw; injection Hw as <-; right. destruct F4 as (A & B & C).
+    assert (Ek : okeys (set_pp (put_deq (sess_delete s Outgoing id0)) PLoop) = filter (fun j => negb (j =? id0)) (okeys s)).
+    { unfold okeys. bcsimpl. cbn [sess_with s_out sess_store]. apply keys_delete. exact S1. }
+    constructor; rewrite ?Ek; bcsimpl; try exact F1; try exact I.
+    + intros x Hx. apply filter_In. split; [apply F2; exact Hx|].
+      apply negb_true_iff, N.eqb_neq. intros ->. contradiction.
+    + intros x Hx. destruct (F3 x Hx) as [P Q]. split; [exact P|]. intros Sv. apply filter_In. split; [apply Q; exact Sv|].
+      apply negb_true_iff, N.eqb_neq. intros ->. contradiction.
+  - (* RecSave ok *)
+    match goal with Hq : (_ =? _) = true |- _ => apply N.eqb_eq in Hq; subst end.
+    cbn [wb_step] in Hw; injection Hw as <-; right. destruct F4 as (A & B).
+    assert (Ek : forall x, In x (okeys s) -> In x (okeys (set_pp (sess_save s Outgoing (Pubrel id0)) (PRelTx id0)))).
+    { intros x Hx. unfold okeys. bcsimpl. cbn [sess_with s_out sess_store store_save get_id]. apply keys_put_incl. exact Hx. }
+    constructor; bcsimpl; try exact F1.
+    + intros x Hx. apply Ek, F2, Hx.
+    + intros x Hx. destruct (F3 x Hx) as [P Q]. split; [exact P|]. intros Sv. apply Ek, Q, Sv.
+    + split; [apply Ek; exact A|exact B].
+  - (* RelTx ok *)
+    match goal with Hq : (_ =? _) = true |- _ => apply N.eqb_eq in Hq; subst end.
+    destruct F4 as (A & B).
+    rewrite (wb_tx_counted t g (Pubrel id0) true id0 t' eq_refl Hw), (fl_add_in _ _ B). right.
+    constructor; unfold okeys in *; bcsimpl; cbn [wb_fl]; first [assumption|exact I].
+Qed.
+
+Lemma RF_deq s t v e s' t' v' :
+  INV s -> RKA s v -> RF s t ->
+  step_deq s e = Some s' -> wb_step t e = Some t' -> pk_step v e = Some v' -> RF s' t'.
+Proof.
+  intros HI [Hk _] HR H Hw Hv.
+  destruct HR as [Hsp|HF]; [left; eapply wb_spur_mono; [exact Hw|exact Hsp|eapply step_deq_not_setup; exact H]|].
+  pose proof (I_shape _ HI) as Hsh. pose proof HF as [F1 F2 F3 F4].
+  unfold step_deq, guard in H.
+  inv_step H; inv_helpers; injection H as <-; subst; cbn [dp_shape] in Hsh; cbn [pend saved] in F3.
+  all: try (cbn [wb_step] in Hw; injection Hw as <-; right;
+            (eapply RFr_frame; [| | |exact HF]); unfold okeys; bcsimpl; cbn [sess_with s_out pend saved];
+            [reflexivity|first [left; split; reflexivity|right; reflexivity]|left; reflexivity]).
+  - (* DeqRet qos 0 *)
+    cbn [wb_step] in Hw; injection Hw as <-; right.
+    (eapply RFr_frame; [| | |exact HF]); [reflexivity| |left; reflexivity].
+    right. destruct backack; bcsimpl; cbn [pend counted_id];
+      match goal with Hq : (m_qos m =? 0) = true |- _ => rewrite Hq end; reflexivity.
+  - (* NextId: the new id is not stored, hence not in flight *)
+    cbn [wb_step] in Hw; injection Hw as <-. cbn [pk_step] in Hv.
+    destruct (nmem id (pk_ids v)) eqn:En; [discriminate Hv|].
+    assert (Hnk : ~ In id (okeys s)). { rewrite <- Hk. intros C. apply nmem_true_iff in C. congruence. }
+    right. constructor; unfold okeys in *; bcsimpl; cbn [pend saved counted_id]; try assumption.
+    + rewrite Hsh. intros x E. injection E as <-. split; [intros C; apply Hnk, F2, C|discriminate].
+    + destruct (pp s); try exact I; try exact F4. destruct F4 as (A & B & _). repeat split; try assumption.
+      rewrite Hsh. intros E. injection E as <-. contradiction.
+  - (* Save ok *)
+    destruct Hsh as (m & id & -> & Hq).
+    match goal with Hx : packet_eqb _ _ = true |- _ => apply packet_eqb_publish_l in Hx; subst end.
+    cbn [wb_step] in Hw; injection Hw as <-. cbn [counted_id] in F3. rewrite Hq in F3.
+    assert (Ek : forall x X, In x (okeys s) -> In x (okeys (set_dp (sess_save s Outgoing (Publish false m id)) X))).
+    { intros x X Hx. unfold okeys. bcsimpl. cbn [sess_with s_out sess_store store_save get_id]. apply keys_put_incl. exact Hx. }
+    assert (Eid : forall X, In id (okeys (set_dp (sess_save s Outgoing (Publish false m id)) X))).
+    { intros X. unfold okeys. bcsimpl. cbn [sess_with s_out sess_store store_save get_id].
+      rewrite keys_put. destruct (store_lookup (s_out (sess s)) id) eqn:El.
+      - destruct (in_dec N.eq_dec id (keys (s_out (sess s)))) as [Hi|Hi]; [exact Hi|].
+        apply lookup_none_notin in Hi. congruence.
+      - apply in_or_app. right. left. reflexivity. }
+    destruct (F3 id eq_refl) as [Hnf _].
+    right. destruct ba; constructor; bcsimpl; cbn [pend saved counted_id]; rewrite ?Hq; try exact F1.
+    all: try (intros x Hx; apply Ek, F2, Hx).
+    all: try (intros x E; injection E as <-; split; [exact Hnf|intros _; apply Eid]).
+    all: destruct (pp s); try exact I; try (destruct F4 as (A & B); split; [apply Ek; exact A|exact B]);
+         destruct F4 as (A & B & C); cbn [pend counted_id] in C; rewrite Hq in C;
+         (split; [apply Ek; exact A|split; [exact B|exact C]]).
+  - (* DeqAck *)
+    cbn [wb_step] in Hw; injection Hw as <-; right.
+    (eapply RFr_frame; [| | |exact HF]); [reflexivity|left; bcsimpl; rewrite Heqd; split; reflexivity|left; reflexivity].
+  - (* Send ok *)
+    destruct Hsh as (m & id & ->).
+    match goal with Hx : packet_eqb _ _ = true |- _ => apply packet_eqb_publish_l in Hx; subst end.
+    cbn [counted_id] in F3. destruct (m_qos m =? 0) eqn:Eq.
+    + assert (Et : t' = t) by (eapply wb_tx_uncounted; [|exact Hw]; cbn [counted_id]; rewrite Eq; reflexivity).
+      subst t'. right. (eapply RFr_frame; [| | |exact HF]); [reflexivity|right; reflexivity|left; reflexivity].
+    + assert (Et : t' = WbSt (wb_w t) (fl_add id (wb_fl t)) (wb_spur t))
+        by (eapply wb_tx_counted; [|exact Hw]; cbn [counted_id]; rewrite Eq; reflexivity).
+      subst t'. destruct (F3 id eq_refl) as [Hnf Hin]. specialize (Hin eq_refl).
+      right. constructor; unfold okeys in *; bcsimpl; cbn [wb_fl pend].
+      * apply NoDup_fl_add. exact F1.
+      * intros x Hx. apply In_fl_add in Hx as [->|Hx]; [exact Hin|apply F2; exact Hx].
+      * intros x C. discriminate C.
+      * destruct (pp s); try exact I.
+        -- destruct F4 as (A & B & C). repeat split; try assumption; [|discriminate].
+           intros Hx. apply In_fl_add in Hx as [->|Hx]; [apply C; cbn [pend counted_id]; rewrite Eq; reflexivity|contradiction].
+        -- destruct F4 as (A & B). split; [exact A|apply In_fl_add; right; exact B].
+        -- destruct F4 as (A & B). split; [exact A|apply In_fl_add; right; exact B].
+  - (* Send fail *)
+    rewrite wb_tx_fail in Hw. injection Hw as <-. right.
+    (eapply RFr_frame; [| | |exact HF]); [reflexivity|right; reflexivity|left; reflexivity].
+Qed.
+
+Lemma RFr_same s s' t : same_pd s s' -> RFr s t -> RFr s' t.
+Proof.
+  intros Hs. apply RFr_frame.
+  - unfold okeys. rewrite (sp_out _ _ Hs). reflexivity.
+  - left. rewrite (sp_dp _ _ Hs). split; reflexivity.
+  - left. apply (sp_pp _ _ Hs).
+Qed.
+
+Lemma RFr_frozen s s' t : frozen s s' -> RFr s t -> RFr s' t.
+Proof.
+  intros Hf. apply RFr_frame.
+  - unfold okeys. rewrite (fz_sess _ _ Hf). reflexivity.
+  - right. rewrite (fz_dp _ _ Hf). destruct (dp s); reflexivity.
+  - right. rewrite (fz_pp _ _ Hf). exact I.
+Qed.
+
+Lemma RF_learned s s1 t : learned s s1 -> RF s t -> RF s1 t.
+Proof.
+  intros Hl [Hs|HF]; [left; exact Hs|right].
+  (eapply RFr_frame; [| | |exact HF]);
+    destruct Hl as [->|(g0 & _ & [[_ ->]|[[_ ->]|[[_ ->]|[_ ->]]]])];
+    first [reflexivity|left; split; reflexivity|left; reflexivity].
+Qed.
+
+Lemma wb_step_same t e t' : wb_step t e = Some t' ->
+  match e with ENewConn | ESetup _ _ | ETx _ _ _ _ | ERx _ _ => False | _ => True end -> t' = t.
+Proof. intros H He. rewrite wb_step_other in H by exact He. injection H as <-. reflexivity. Qed.
+
+Lemma RF_step s t v e s' t' v' :
+  INV3 s -> RKA s v -> RW s t -> RF s t ->
+  step s e = Some s' -> wb_step t e = Some t' -> pk_step v e = Some v' -> RF s' t'.
+Proof.
+  intros [HI HS] HK HW HR H Hw Hv. apply step_inv in H.
+  destruct H as [He Ho ->|He Ho ->|He Hq ->|Hc|g s1 Hg Hl Hr Ho Hp|g s1 Hg Hl Hr Ho Hnp Hd
+                |g s1 Hg Hl Hr Ho Hnp Hnd Ha|g s1 Hg Hl Hr Ho Hc|He Hc|g He Ho ->].
+  - subst e. cbn [wb_step] in Hw. injection Hw as <-. destruct HR as [Hs|[F1 F2 F3 F4]]; [left; exact Hs|right].
+    constructor; unfold okeys; bcsimpl; cbn [wb_fl pend]; first [apply NoDup_nil|exact I|intros ? C; discriminate C|intros ? []].
+  - subst e. cbn [wb_step] in Hw. injection Hw as <-. exact HR.
+  - subst e. cbn [wb_step] in Hw. injection Hw as <-. exact HR.
+  - apply step_clo_sum in Hc as (He & Hs & _).
+    rewrite (wb_step_same _ _ _ Hw) by (destruct e; try contradiction; exact I).
+    destruct HR as [Hsp|HF]; [left; exact Hsp|right; eapply RFr_same; eassumption].
+  - assert (HK1 : RKA s1 v) by (destruct Hl as [->|(g0 & _ & [[_ ->]|[[_ ->]|[[_ ->]|[_ ->]]]])]; exact HK).
+    eapply RF_proc; [eapply INV_learned; eassumption|eapply INVS_learned; eassumption|exact HK1
+                    |eapply RW_learned; eassumption|eapply RF_learned; eassumption|exact Hp|exact Hw|exact Hv].
+  - assert (HK1 : RKA s1 v) by (destruct Hl as [->|(g0 & _ & [[_ ->]|[[_ ->]|[[_ ->]|[_ ->]]]])]; exact HK).
+    eapply RF_deq; [eapply INV_learned; eassumption|exact HK1|eapply RF_learned; eassumption|exact Hd|exact Hw|exact Hv].
+  - pose proof (INV_learned _ _ Hl HI) as HI1. pose proof (step_ack_sum _ _ _ Ha) as (Hs & _ & He).
+    assert (Et : t' = t).
+    { destruct e; try contradiction; try (cbn [wb_step] in Hw; injection Hw as <-; reflexivity).
+      destruct async; [|contradiction]. destruct He as (q' & Ht & _).
+      destruct ok; [|rewrite wb_tx_fail in Hw; injection Hw as <-; reflexivity].
+      eapply wb_tx_uncounted; [|exact Hw]. apply ack_not_counted. eapply ackq_take_is_ack; [exact Ht|apply (I_ackq _ HI1)]. }
+    subst t'. pose proof (RF_learned _ _ _ Hl HR) as [Hsp|HF]; [left; exact Hsp|right; eapply RFr_same; eassumption].
+  - apply step_cleanup_sum in Hc as (He & Hc).
+    rewrite (wb_step_same _ _ _ Hw) by (destruct e; try contradiction; exact I).
+    pose proof (RF_learned _ _ _ Hl HR) as [Hsp|HF]; [left; exact Hsp|right].
+    destruct Hc as [(Hs & _)|Hf]; [eapply RFr_same|eapply RFr_frozen]; eassumption.
+  - apply step_cleanup_sum in Hc as (He' & Hc). subst e. cbn [wb_step] in Hw. injection Hw as <-.
+    destruct HR as [Hsp|HF]; [left; exact Hsp|right].
+    destruct Hc as [(Hs & _)|Hf]; [eapply RFr_same|eapply RFr_frozen]; eassumption.
+  - subst e. cbn [wb_step] in Hw. injection Hw as <-. destruct HR as [Hsp|HF]; [left; exact Hsp|right].
+    (eapply RFr_frame; [| | |exact HF]); [reflexivity|left; split; reflexivity|left; reflexivity].
+Qed.
+
+(* ---------------------------------- stored packets + free slots fit the window *)
+
+Definition held' (d : dpc) : N :=
+  match d with
+  | DWait | DNextId _ _ | DSave _ _ => 1
+  | DBackAck p | DSend p => match counted_id p with None => 1 | Some _ => 0 end
+  | _ => 0
+  end.
+Definition slen (s : bc) : N := N.of_nat (length (s_out (sess s))).
+
+Record RTr (s : bc) (v : pk_st) : Prop := MkRTr {
+  T_len : slen s <= pk_last v;
+  T_phase : match pp s with
+            | PConnack _ _ | PAll => tdeq s = cw s /\ 0 < cw s
+            | PResend rest => N.of_nat (length rest) <= tdeq s /\ slen s + tdeq s <= cw s + N.of_nat (length rest) /\ 0 < cw s
+            | PRestore => slen s + tdeq s <= cw s /\ 0 < cw s
+            | _ => True
+            end;
+  T_J : dp s <> DOff -> slen s + tdeq s + held' (dp s) <= cw s /\ 0 < cw s }.
+Definition RT (s : bc) (t : wb_st) (v : pk_st) : Prop := wb_spur t = true \/ RTr s v.
+
+Definition plain_t (p : ppc) : Prop :=
+  match p with PConnack _ _ | PAll | PResend _ | PRestore => False | _ => True end.
+
+Lemma RTr_frame s s' v v' :
+  slen s' = slen s -> pk_last v' = pk_last v -> tdeq s' = tdeq s -> cw s' = cw s ->
+  (dp s' <> DOff -> dp s <> DOff /\ held' (dp s') <= held' (dp s)) ->
+  (pp s' = pp s \/ plain_t (pp s')) -> RTr s v -> RTr s' v'.
+Proof.
+  intros El Ev Et Ec Ed Ep [H1 H2 H3]. constructor; rewrite ?El, ?Ev, ?Et, ?Ec.
+  - exact H1.
+  - destruct Ep as [Ep|Ep]; [rewrite Ep; exact H2|destruct (pp s'); try exact I; contradiction].
+  - intros Hd. destruct (Ed Hd) as [Hd0 Hh]. destruct (H3 Hd0) as [A B]. split; [lia|exact B].
+Qed.
+
+Lemma RT_setup s v c g resumed fresh w p b v' :
+  INV s -> pp s = PSetup c -> ((0 <? w) && (0 <? p) && (0 <? b)) = true ->
+  pk_step v (ESetup g (SOk resumed fresh w p b)) = Some v' ->
+  fresh = true \/ RTr s v ->
+  RTr (setup_state s c resumed fresh w p b) v'.
+Proof.
+  intros HI Hp Hg Hv Hc.
+  assert (Hd : dp s = DOff) by (apply (I_pre _ HI); rewrite Hp; reflexivity).
+  apply andb_prop in Hg as [Hg _]. apply andb_prop in Hg as [Hg _]. apply N.ltb_lt in Hg.
+  cbn [pk_step] in Hv. destruct (fresh || (pk_last v <=? w)) eqn:Ef; [|discriminate Hv]. injection Hv as <-.
+  unfold setup_state. constructor; unfold slen; cbn [pk_last].
+  - destruct fresh; bcsimpl; cbn [session_new s_out length]; [lia|].
+    destruct Hc as [C|[H1 _ _]]; [discriminate C|]. cbn [orb] in Ef. apply N.leb_le in Ef. unfold slen in H1. lia.
+  - destruct fresh; bcsimpl; split; [reflexivity|exact Hg|reflexivity|exact Hg].
+  - destruct fresh; bcsimpl; rewrite Hd; intros C; contradiction.
+Qed.
+
+Lemma slen_keys s : slen s = N.of_nat (length (okeys s)).
+Proof. unfold slen, okeys. rewrite keys_length. reflexivity. Qed.
+
+Lemma RT_proc s t v e s' t' v' :
+  INV s -> INVS s -> RKA s v -> RF s t -> RT s t v ->
+  step_proc s e = Some s' -> wb_step t e = Some t' -> pk_step v e = Some v' -> RT s' t' v'.
+Proof.
+  intros HI HS [Hk Hlast] HF HR H Hw Hv.
+  destruct (is_setup_ok e) eqn:Ese.
+  { destruct e; try discriminate Ese. destruct r as [|resumed fresh w p b]; [discriminate Ese|].
+    unfold step_proc in H. destruct (pp s) as [| | | | | |ps| | | | | | | | | | | | | | | | | | | | | |] eqn:Ep;
+      try discriminate H; [|destruct ps; discriminate H]. cbv beta iota zeta in H. unfold guard in H.
+    destruct ((0 <? w) && (0 <? p) && (0 <? b)) eqn:Eg; [|discriminate H]. injection H as <-.
+    cbn [wb_step] in Hw. injection Hw as <-. cbn [wb_spur].
+    destruct fresh eqn:Efr.
+    - right. eapply (RT_setup s v c g resumed true w p b v' HI Ep Eg Hv). left. reflexivity.
+    - destruct HR as [Hsp|HT]; [left; exact Hsp|right].
+      eapply (RT_setup s v c g resumed false w p b v' HI Ep Eg Hv). right. exact HT. }
+  destruct HR as [Hsp|HT]; [left; eapply wb_spur_mono; eassumption|].
+  destruct HF as [Hsp|HF]; [left; eapply wb_spur_mono; eassumption|].
+  pose proof (I_pre _ HI) as Hpre. pose proof HS as [S1 S2 S3]. pose proof HF as [F1 F2 F3 F4]. pose proof HT as [T1 T2 T3].
+  unfold step_proc, proc_dispatch, die_p, guard in H.
+  inv_step H; inv_helpers; injection H as <-; subst; cbn [pre_loop] in Hpre; try discriminate Ese.
+  all: try (cbn [pk_step] in Hv; injection Hv as <-; right;
+            (eapply RTr_frame; [| | | | | |exact HT]); unfold slen; bcsimpl; cbn [sess_with s_out];
+            [reflexivity|reflexivity|reflexivity|reflexivity|intros Hd; split; [exact Hd|lia]
+            |first [left; reflexivity|right; exact I]]).
+  - (* Connack ok *) cbn [pk_step] in Hv; injection Hv as <-; right.
+    constructor; unfold slen in *; bcsimpl; [exact T1|exact T2|exact T3].
+  - (* All *)
+    cbn [pk_step] in Hv; injection Hv as <-; right. destruct T2 as [Ht Hc].
+    match goal with Hl : list_eqb packet_eqb _ _ = true |- _ => apply list_eqb_length in Hl; rename Hl into Hlen end.
+    unfold store_all in Hlen. rewrite map_length in Hlen.
+    assert (Hlw : pk_last v = cw s) by (apply Hlast; lia).
+    destruct (Hpre eq_refl) as [Hd _].
+    destruct l; constructor; unfold slen in *; bcsimpl; try exact T1; cbn [length] in *.
+    + split; [rewrite <- Hlen; cbn [length]; lia|exact Hc].
+    + rewrite Hd. intros C; contradiction.
+    + repeat split; [lia|lia|exact Hc].
+    + rewrite Hd. intros C; contradiction.
+  - (* Resend ok *)
+    cbn [pk_step] in Hv; injection Hv as <-; right.
+    inversion S3 as [|? ? Hp Hl]; subst. destruct Hp as (i & Gi & Hin).
+    destruct (Hpre eq_refl) as [Hd _]. destruct T2 as (Ta & Tb & Tc). cbn [length] in Ta, Tb.
+    assert (Hpos : 0 < tdeq s) by lia.
+    assert (Et : take_deq_if_any s = set_tok s (tdeq s - 1) (tpub s) (tsub s)).
+    { unfold take_deq_if_any, take_deq. apply N.ltb_lt in Hpos. rewrite Hpos. reflexivity. }
+    rewrite Et.
+    assert (Es : slen (sess_save (set_tok s (tdeq s - 1) (tpub s) (tsub s)) Outgoing (set_dup p)) = slen s).
+    { rewrite !slen_keys. unfold okeys. bcsimpl. cbn [sess_with s_out sess_store].
+      unfold store_save. rewrite get_id_set_dup, Gi, put_present by exact Hin. reflexivity. }
+    destruct l; constructor; bcsimpl; rewrite ?Hd;
+      try (change (slen (sess_save (set_tok s (tdeq s - 1) (tpub s) (tsub s)) Outgoing (set_dup p)) <= pk_last v); rewrite Es; exact T1);
+      try (intros C; contradiction).
+    + change (slen (sess_save (set_tok s (tdeq s - 1) (tpub s) (tsub s)) Outgoing (set_dup p)) + (tdeq s - 1) <= cw s /\ 0 < cw s).
+      rewrite Es. cbn [length] in *. split; [lia|exact Tc].
+    + change (N.of_nat (length (p0 :: l)) <= tdeq s - 1 /\
+              slen (sess_save (set_tok s (tdeq s - 1) (tpub s) (tsub s)) Outgoing (set_dup p)) + (tdeq s - 1) <= cw s + N.of_nat (length (p0 :: l)) /\ 0 < cw s).
+      rewrite Es. cbn [length] in *. repeat split; [lia|lia|exact Tc].
+  - (* Resend fail *)
+    cbn [pk_step] in Hv; injection Hv as <-; right.
+    inversion S3 as [|? ? Hp Hl]; subst. destruct Hp as (i & Gi & Hin).
+    destruct (Hpre eq_refl) as [Hd _].
+    assert (Es : slen (sess_save (take_deq_if_any s) Outgoing (set_dup p)) = slen s).
+    { rewrite !slen_keys. unfold okeys, take_deq_if_any, take_deq. destruct (0 <? tdeq s); bcsimpl; cbn [sess_with s_out sess_store];
+        unfold store_save; rewrite get_id_set_dup, Gi, put_present by exact Hin; reflexivity. }
+    constructor; bcsimpl.
+    + change (slen (sess_save (take_deq_if_any s) Outgoing (set_dup p)) <= pk_last v). rewrite Es. exact T1.
+    + exact I.
+    + unfold take_deq_if_any, take_deq. destruct (0 <? tdeq s); bcsimpl; rewrite Hd; intros C; contradiction.
+  - (* Restore ok *)
+    cbn [pk_step] in Hv; injection Hv as <-; right. destruct T2 as [Ta Tb].
+    constructor; unfold slen in *; bcsimpl; cbn [held']; [exact T1|exact I|]. intros _. split; [lia|exact Tb].
+  - (* AckDel ok *)
+    match goal with Hq : (_ =? _) = true |- _ => apply N.eqb_eq in Hq; subst end.
+    cbn [pk_step] in Hv; injection Hv as <-; right. destruct F4 as (A & _ & _).
+    pose proof (delete_length (s_out (sess s)) id0 S1 A) as Hdl.
+    constructor; unfold slen in *; bcsimpl; cbn [sess_with s_out sess_store pk_last]; [lia|exact I|].
+    intros Hd. destruct (T3 Hd) as [Ta Tb]. split; [lia|exact Tb].
+  - (* RecSave ok *)
+    match goal with Hq : (_ =? _) = true |- _ => apply N.eqb_eq in Hq; subst end.
+    cbn [pk_step get_id] in Hv; injection Hv as <-; right. destruct F4 as (A & _).
+    assert (Es : length (store_put (s_out (sess s)) id0 (Pubrel id0)) = length (s_out (sess s))).
+    { rewrite <- !keys_length, put_present by exact A. reflexivity. }
+    constructor; unfold slen in *; bcsimpl; cbn [sess_with s_out sess_store store_save get_id pk_last]; rewrite ?Es;
+      [exact T1|exact I|exact T3].
+Qed.
+
+Lemma RT_deq s t v e s' t' v' :
+  INV s -> RKA s v -> RT s t v ->
+  step_deq s e = Some s' -> wb_step t e = Some t' -> pk_step v e = Some v' -> RT s' t' v'.
+Proof.
+  intros HI [Hk Hlast] HR H Hw Hv.
+  destruct HR as [Hsp|HT]; [left; eapply wb_spur_mono; [exact Hw|exact Hsp|eapply step_deq_not_setup; exact H]|].
+  right. pose proof (I_shape _ HI) as Hsh. pose proof HT as [T1 T2 T3].
+  assert (Hnp : pre_loop (pp s) = false).
+  { destruct (pre_loop (pp s)) eqn:Ep; [|reflexivity]. destruct (I_pre _ HI Ep) as [Hd _].
+    unfold step_deq in H. rewrite Hd in H. discriminate H. }
+  assert (Hph : forall X, match pp s with
+            | PConnack _ _ | PAll => X
+            | PResend rest => X
+            | PRestore => X
+            | _ => True end) by (intros X; destruct (pp s); try exact I; discriminate Hnp).
+  assert (Hdo : dp s <> DOff) by (intros C; unfold step_deq in H; rewrite C in H; discriminate H).
+  destruct (T3 Hdo) as [TJ Tc]. assert (Hlw : pk_last v = cw s) by (apply Hlast; lia).
+  unfold step_deq, guard in H.
+  inv_step H; inv_helpers; injection H as <-; subst; cbn [dp_shape] in Hsh; cbn [held'] in TJ.
+  all: try (cbn [pk_step] in Hv; injection Hv as <-;
+            constructor; unfold slen in *; bcsimpl; cbn [sess_with s_out held' pk_last];
+            [exact T1|destruct (pp s); first [exact I|discriminate Hnp]|intros _; split; [lia|exact Tc]]).
+  - (* DeqRet qos 0 *)
+    cbn [pk_step] in Hv; injection Hv as <-.
+    destruct backack; constructor; unfold slen in *; bcsimpl; cbn [held' counted_id];
+      match goal with Hq : (m_qos m =? 0) = true |- _ => rewrite ?Hq end;
+      first [exact T1|destruct (pp s); first [exact I|discriminate Hnp]|intros _; split; [lia|exact Tc]].
+  - (* NextId *)
+    cbn [pk_step] in Hv. destruct (nmem id (pk_ids v)); [discriminate Hv|]. injection Hv as <-.
+    constructor; unfold slen in *; bcsimpl; cbn [held' s_out];
+      first [exact T1|destruct (pp s); first [exact I|discriminate Hnp]|intros _; split; [lia|exact Tc]].
+  - (* Save ok *)
+    destruct Hsh as (m & id & -> & Hq).
+    match goal with Hx : packet_eqb _ _ = true |- _ => apply packet_eqb_publish_l in Hx; subst end.
+    cbn [pk_step get_id] in Hv; injection Hv as <-.
+    pose proof (put_length_le (s_out (sess s)) id (Publish false m id)) as Hpl.
+    destruct ba; constructor; unfold slen in *; bcsimpl;
+      cbn [sess_with s_out sess_store store_save get_id held' counted_id pk_last]; rewrite ?Hq;
+      first [lia|destruct (pp s); first [exact I|discriminate Hnp]|intros _; split; [lia|exact Tc]].
+  - (* Send ok *)
+    destruct Hsh as (m & id & ->).
+    match goal with Hx : packet_eqb _ _ = true |- _ => apply packet_eqb_publish_l in Hx; subst end.
+    cbn [pk_step] in Hv; injection Hv as <-. cbn [counted_id] in TJ.
+    destruct (m_qos m =? 0); constructor; unfold slen in *; bcsimpl; cbn [held'];
+      first [exact T1|destruct (pp s); first [exact I|discriminate Hnp]|intros _; split; [lia|exact Tc]].
+Qed.
+
+Lemma RTr_same s s' v : same_pd s s' -> RTr s v -> RTr s' v.
+Proof.
+  intros Hs. apply RTr_frame; try reflexivity.
+  - unfold slen. rewrite (sp_out _ _ Hs). reflexivity.
+  - apply (sp_tdeq _ _ Hs).
+  - apply (sp_cw _ _ Hs).
+  - rewrite (sp_dp _ _ Hs). intros Hd. split; [exact Hd|lia].
+  - left. apply (sp_pp _ _ Hs).
+Qed.
+
+Lemma RTr_frozen s s' v : frozen s s' -> RTr s v -> RTr s' v.
+Proof.
+  intros Hf. apply RTr_frame; try reflexivity.
+  - unfold slen. rewrite (fz_sess _ _ Hf). reflexivity.
+  - apply (fz_tdeq _ _ Hf).
+  - apply (fz_cw _ _ Hf).
+  - rewrite (fz_dp _ _ Hf). destruct (dp s); intros Hd; try contradiction; (split; [discriminate|cbn [held']; try lia]).
+    all: destruct (counted_id p); lia.
+  - right. rewrite (fz_pp _ _ Hf). exact I.
+Qed.
+
+Lemma RT_learned s s1 t v : learned s s1 -> RT s t v -> RT s1 t v.
+Proof.
+  intros Hl [Hs|HT]; [left; exact Hs|right].
+  (eapply RTr_frame; [| | | | | |exact HT]);
+    destruct Hl as [->|(g0 & _ & [[_ ->]|[[_ ->]|[[_ ->]|[_ ->]]]])]; bcsimpl;
+    first [reflexivity|left; reflexivity|intros Hd; split; [exact Hd|lia]].
+Qed.
+
+Lemma pk_step_same v e v' : pk_step v e = Some v' ->
+  match e with ESetup _ _ | ESave _ _ _ _ | EDelete _ _ _ _ | ENextId _ _ => False | _ => True end -> v' = v.
+Proof. intros H He. rewrite pk_step_other in H by exact He. injection H as <-. reflexivity. Qed.
+
+Lemma RT_step s t v e s' t' v' :
+  INV3 s -> RKA s v -> RF s t -> RT s t v ->
+  step s e = Some s' -> wb_step t e = Some t' -> pk_step v e = Some v' -> RT s' t' v'.
+Proof.
+  intros [HI HS] HK HF HR H Hw Hv. apply step_inv in H.
+  destruct H as [He Ho ->|He Ho ->|He Hq ->|Hc|g s1 Hg Hl Hr Ho Hp|g s1 Hg Hl Hr Ho Hnp Hd
+                |g s1 Hg Hl Hr Ho Hnp Hnd Ha|g s1 Hg Hl Hr Ho Hc|He Hc|g He Ho ->].
+  - subst e. cbn [wb_step] in Hw. injection Hw as <-. cbn [pk_step] in Hv. injection Hv as <-.
+    destruct HR as [Hs|[T1 T2 T3]]; [left; exact Hs|right].
+    constructor; unfold slen in *; bcsimpl; [exact T1|exact I|intros C; contradiction].
+  - subst e. cbn [wb_step] in Hw. injection Hw as <-. cbn [pk_step] in Hv. injection Hv as <-. exact HR.
+  - subst e. cbn [wb_step] in Hw. injection Hw as <-. cbn [pk_step] in Hv. injection Hv as <-. exact HR.
+  - apply step_clo_sum in Hc as (He & Hs & _).
+    rewrite (wb_step_same _ _ _ Hw) by (destruct e; try contradiction; exact I).
+    assert (Ev : v' = v).
+    { destruct e; try contradiction; cbn [pk_step] in Hv; try (injection Hv as <-; reflexivity).
+      destruct d; [injection Hv as <-; reflexivity|contradiction]. }
+    subst v'. destruct HR as [Hsp|HT]; [left; exact Hsp|right; eapply RTr_same; eassumption].
+  - assert (HK1 : RKA s1 v) by (destruct Hl as [->|(g0 & _ & [[_ ->]|[[_ ->]|[[_ ->]|[_ ->]]]])]; exact HK).
+    eapply RT_proc; [eapply INV_learned; eassumption|eapply INVS_learned; eassumption|exact HK1
+                    |eapply RF_learned; eassumption|eapply RT_learned; eassumption|exact Hp|exact Hw|exact Hv].
+  - assert (HK1 : RKA s1 v) by (destruct Hl as [->|(g0 & _ & [[_ ->]|[[_ ->]|[[_ ->]|[_ ->]]]])]; exact HK).
+    eapply RT_deq; [eapply INV_learned; eassumption|exact HK1|eapply RT_learned; eassumption|exact Hd|exact Hw|exact Hv].
+  - pose proof (INV_learned _ _ Hl HI) as HI1. pose proof (step_ack_sum _ _ _ Ha) as (Hs & _ & He).
+    assert (Et : t' = t).
+    { destruct e; try contradiction; try (cbn [wb_step] in Hw; injection Hw as <-; reflexivity).
+      destruct async; [|contradiction]. destruct He as (q' & Ht & _).
+      destruct ok; [|rewrite wb_tx_fail in Hw; injection Hw as <-; reflexivity].
+      eapply wb_tx_uncounted; [|exact Hw]. apply ack_not_counted. eapply ackq_take_is_ack; [exact Ht|apply (I_ackq _ HI1)]. }
+    subst t'. rewrite (pk_step_same _ _ _ Hv) by (destruct e; try contradiction; exact I).
+    pose proof (RT_learned _ _ _ _ Hl HR) as [Hsp|HT]; [left; exact Hsp|right; eapply RTr_same; eassumption].
+  - apply step_cleanup_sum in Hc as (He & Hc).
+    rewrite (wb_step_same _ _ _ Hw) by (destruct e; try contradiction; exact I).
+    rewrite (pk_step_same _ _ _ Hv) by (destruct e; try contradiction; exact I).
+    pose proof (RT_learned _ _ _ _ Hl HR) as [Hsp|HT]; [left; exact Hsp|right].
+    destruct Hc as [(Hs & _)|Hf]; [eapply RTr_same|eapply RTr_frozen]; eassumption.
+  - apply step_cleanup_sum in Hc as (He' & Hc). subst e. cbn [wb_step] in Hw. injection Hw as <-.
+    cbn [pk_step] in Hv. injection Hv as <-.
+    destruct HR as [Hsp|HT]; [left; exact Hsp|right].
+    destruct Hc as [(Hs & _)|Hf]; [eapply RTr_same|eapply RTr_frozen]; eassumption.
+  - subst e. cbn [wb_step] in Hw. injection Hw as <-. cbn [pk_step] in Hv. injection Hv as <-.
+    destruct HR as [Hsp|HT]; [left; exact Hsp|right].
+    (eapply RTr_frame; [| | | | | |exact HT]); bcsimpl; first [reflexivity|left; reflexivity|intros Hd; split; [exact Hd|lia]].
+Qed.
+
+(* ---------------------------------------------------------------- assembly *)
+
+(* an accepted listing of the outgoing store lists the store *)
+Lemma step_all_inv s g ps s' : step s (EAll g Outgoing (Some ps)) = Some s' ->
+  pp s = PAll /\ length ps = length (s_out (sess s)).
+Proof.
+  intros H. apply step_inv in H.
+  destruct H as [He Ho ->|He Ho ->|He Hq ->|Hc|g' s1 Hg Hl Hr Ho Hp|g' s1 Hg Hl Hr Ho Hnp Hd
+                |g' s1 Hg Hl Hr Ho Hnp Hnd Ha|g' s1 Hg Hl Hr Ho Hc|He Hc|g' He Ho ->]; try discriminate.
+  - assert (E : pp s1 = pp s /\ sess s1 = sess s)
+      by (destruct Hl as [->|(g0 & _ & [[_ ->]|[[_ ->]|[[_ ->]|[_ ->]]]])]; split; reflexivity).
+    destruct E as [Ep Es]. rewrite <- Ep, <- Es.
+    unfold step_proc, guard in Hp. inv_step Hp. split; [reflexivity|].
+    match goal with Hx : list_eqb packet_eqb _ _ = true |- _ => apply list_eqb_length in Hx; rewrite Hx end.
+    unfold store_all. apply map_length.
+  - exfalso. unfold step_deq in Hd. destruct (dp s1); discriminate Hd.
+  - pose proof (step_ack_sum _ _ _ Ha) as (_ & _ & He). contradiction.
+  - apply step_cleanup_sum in Hc as (He & _). contradiction.
+Qed.
+
+Lemma fits_from_RT s t v e s' : RKA s v -> RT s t v -> step s e = Some s' -> wb_spur t = true \/ fits s e.
+Proof.
+  intros [_ Hlast] [Hsp|[T1 T2 _]] H; [left; exact Hsp|right].
+  intros g ps ->. destruct (step_all_inv _ _ _ _ H) as [Hp Hlen].
+  rewrite Hp in T2. destruct T2 as [_ Hc]. unfold slen in T1. rewrite Hlen, <- Hlast by lia. exact T1.
+Qed.
+
+Definition R_cw (s : bc) (t : wb_st) (v : pk_st) : Prop :=
+  RW s t /\ RB s t /\ RKA s v /\ RF s t /\ RT s t v.
+
+Lemma cw_step_ok s t v e s' v' : INV3 s -> R_cw s t v -> step s e = Some s' -> pk_step v e = Some v' ->
+  exists t', wb_step t e = Some t' /\ R_cw s' t' v'.
+Proof.
+  intros HI3 (HW & HB & HK & HF & HT) H Hv. pose proof HI3 as [HI HS].
+  destruct (RB_step s t e s' HI HW HB H (fits_from_RT _ _ _ _ _ HK HT H)) as (t' & Hw & HB').
+  exists t'. split; [exact Hw|].
+  split; [eapply RW_step; eassumption|]. split; [exact HB'|].
+  split; [eapply RKA_step; eassumption|]. split; [eapply RF_step; eassumption|eapply RT_step; eassumption].
+Qed.
+
+Lemma R_cw_init : R_cw bc_init (WbSt 0 [] false) (PkSt 0 []).
+Proof.
+  split; [split; reflexivity|]. split; [right; cbn; split; [lia|exact I]|].
+  split; [split; [reflexivity|intros C; exfalso; apply C; reflexivity]|].
+  split; right; constructor; cbn; first [apply NoDup_nil|exact I|lia|intros ? C; discriminate C|intros ? []|intros C; exfalso; apply C; reflexivity].
+Qed.
+
+(* the bound, for every accepted trace on which the window does not shrink between the
+   connections of a session (and ids are not re-allocated while still stored) *)
+Theorem c16_bound_const_window_holds :
+  forall es s, bc_run es = Some s -> c16_window_const es = true -> c16_bound es = true.
+Proof. exact (scan2_sound wb_step pk_step INV3 R_cw INV3_init INV3_step cw_step_ok _ _ R_cw_init). Qed.
+
+(* token conservation under the same hypothesis: in the state reached,
+   in flight + free slots + slot held by the dequeuer + slot being returned <= W
+   and   stored packets <= W,   unless the peer acknowledged an id not in flight *)
+Theorem c16_conservation_const_window_holds : forall es s,
+  bc_run es = Some s -> c16_window_const es = true ->
+  exists t, srun wb_step (WbSt 0 [] false) es = Some t /\
+    (wb_spur t = true \/
+     (N.of_nat (length (wb_fl t)) + tdeq s + held (dp s) + credit (pp s) <= cw s /\
+      (cw s <> 0 -> N.of_nat (length (s_out (sess s))) <= cw s))).
+Proof.
+  intros es s Hrun Hh.
+  destruct (scan2_rel wb_step pk_step INV3 R_cw INV3_step cw_step_ok es bc_init _ _ s INV3_init R_cw_init Hrun Hh)
+    as (t & v & E & _ & HB & [_ Hlast] & _ & HT).
+  exists t. split; [exact E|].
+  destruct HB as [Hs|(Hi & _)]; [left; exact Hs|]. destruct HT as [Hs|[T1 _ _]]; [left; exact Hs|right].
+  split; [exact Hi|]. intros Hc. rewrite <- (Hlast Hc). exact T1.
+Qed.
